@@ -244,8 +244,18 @@ func runWalkMulti(c *core.Ctx) {
 			}
 			arg := call.Call.Args[0]
 			if w.loopVar {
-				if _, isPhi := arg.(*ssa.Phi); !isPhi {
-					why = "UnwrapMulti is applied to " + describeVal(arg) + ", not to the chain loop variable: multi-cause nodes below the outermost layer are not searched"
+				ph, isPhi := arg.(*ssa.Phi)
+				stepped := false
+				if isPhi {
+					// the induction variable of the chain walk: one of its edges is the UnwrapOnce step
+					for _, e := range ph.Edges {
+						if sc, ok := e.(*ssa.Call); ok && sx.Callee(sc) != nil && sx.Callee(sc).Name() == "UnwrapOnce" {
+							stepped = true
+						}
+					}
+				}
+				if !isPhi || !stepped {
+					why = "UnwrapMulti is applied to " + describeVal(arg) + ", not to the chain loop variable: multi-cause nodes are not searched at every layer of the chain (a node with both a single cause and branches, or a layer above the end of the chain, is skipped)"
 					return
 				}
 			} else if _, isParam := arg.(*ssa.Parameter); !isParam {
